@@ -67,17 +67,7 @@ def _count_all(L, b, k, F, read, min_mq, dedup, key_tags):
 
 def _l1_single_read(L: int, b: int, k: int, F: int, rs: int, rl: int, ds_present: bool, ds: int, read1: bool, qcfail: bool, dup: bool, mi: int,
                     mapq: int, min_mq: int, dedup: bool, keyed: bool, da_present: bool) -> bool:
-    """
-    pre: 1 <= L <= 12
-    pre: 1 <= b <= 4
-    pre: 1 <= k <= 4
-    pre: 0 <= F
-    pre: 0 <= rs and 1 <= rl <= 3 and rs + rl <= L
-    pre: 0 <= mi <= 2
-    pre: 0 <= mapq <= 60 and 0 <= min_mq <= 60
-    pre: (not ds_present) or (rs - F <= ds <= rs + rl - 1 + F and 0 <= ds < L)
-    post: _
-    """
+    # helper (deliberately WITHOUT a pre/post docstring: CrossHair would treat a nested contract as a sub-lemma and ignore its failure in the caller)
     read = LRead(reference_name='chr1', reference_start=rs, cigartuples=[(0, rl)], seq='ACG'[:rl], qual='III'[:rl], is_read1=read1, is_read2=not read1,
                  is_qcfail=qcfail, is_duplicate=dup, mapping_quality=mapq)
     read.mi, read.ds_present, read.ds, read.da_present = mi, ds_present, ds, da_present
@@ -126,6 +116,33 @@ def _l1_filters(read1: bool, qcfail: bool, dup: bool, mi: int, mapq: int, min_mq
     return _l1_single_read(5, 2, 1, 3, 1, 2, ds_present, 3, read1, qcfail, dup, mi, mapq, min_mq, dedup, keyed, da_present)
 
 
+def _l4_two_files(LA: int, LB: int, rs: int, b: int) -> bool:
+    """
+    pre: 1 <= LA <= 5 and 1 <= LB <= 5
+    pre: 0 <= rs < LB
+    pre: 1 <= b <= 2
+    post: _
+    """
+    # history: one process counts file A and then file B; both have a contig called chr1, of different length
+    ra = LRead(reference_name='chr1', reference_start=0, cigartuples=[(0, 1)], seq='A', qual='I', is_read1=True, is_read2=False, mapping_quality=60)
+    rb = LRead(reference_name='chr1', reference_start=rs, cigartuples=[(0, 1)], seq='A', qual='I', is_read1=True, is_read2=False, mapping_quality=60)
+    for r in (ra, rb):
+        r.mi, r.ds_present, r.ds, r.da_present = 0, False, 0, False
+    PYS.files = {'a.bam': dict(references=['chr1'], lengths=[LA], reads=[ra]), 'b.bam': dict(references=['chr1'], lengths=[LB], reads=[rb])}
+    totals = {}
+    for path in ('a.bam', 'b.bam'):
+        total = {}
+        for cmd in B.generate_commands(path, bin_size=b, bins_per_job=1, max_fragment_size=2, min_mq=50, key_tags=None, dedup=True, kwargs={}):
+            total = _merge(total, B.count_fragments_binned(cmd))
+        totals[path] = total
+    bi = rs // b
+    be = b * (bi + 1)
+    if be > LB:
+        be = LB
+    ea = b if b < LA else LA
+    return totals['a.bam'] == {('chr1', 0, ea): {'cellA': 1}} and totals['b.bam'] == {('chr1', b * bi, be): {'cellA': 1}}
+
+
 def _l3_merge(n1: int, n2: int, a0: int, a1: int, b0: int, b1: int, c0: int, c1: int, order: bool) -> bool:
     """
     pre: 0 <= n1 <= 2 and 0 <= n2 <= 2
@@ -158,6 +175,7 @@ LEMMAS = [
          cases={'quick': [dict(id='b%d_k%d_L%d' % (b, k, L), pre=['b == %d' % b, 'k == %d' % k, 'L == %d' % L]) for b in (1, 2, 3) for k in (1, 2, 3) for L in (1, 2, 3, 4, 5, 6, 7) if L <= b * k * 3],
                 'thorough': [dict(id='b%d_k%d_L%d' % (b, k, L), pre=['b == %d' % b, 'k == %d' % k, 'L == %d' % L]) for b in (1, 2, 3, 4) for k in (1, 2, 3, 4) for L in range(1, 13) if L <= b * k * 3]}),
     dict(name='L1_filters', fn='_l1_filters', engine='E1', timeout=_T, replay='replay.C12:replay'),
+    dict(name='L4_two_files_same_contig_name', fn='_l4_two_files', engine='E1', timeout=_T, replay='replay.C12:replay'),
     dict(name='L3_merge_order', fn='_l3_merge', engine='E1', timeout=_T, replay='replay.C12:replay'),
 ]
 
